@@ -320,14 +320,8 @@ func r035(c *an.Ctx, rule string) {
 				continue
 			}
 			var loopRecv ssa.Instruction
-			for _, b := range f.Blocks {
-				if b.Comment == "rangechan.loop" {
-					for _, in := range b.Instrs {
-						if u, ok := in.(*ssa.UnOp); ok && u.Op == token.ARROW {
-							loopRecv = u
-						}
-					}
-				}
+			for _, rl := range an.RecvLoops(f) {
+				loopRecv = rl.Recv
 			}
 			if loopRecv == nil {
 				c.Unk(rule, name+"|seeds first", f.Pos(), "no range-over-channel update loop found in the goroutine")
